@@ -18,7 +18,7 @@ theorem handlerSim_ofEff {s s1 : σ} {m md : MState F} (hd : SimD S P s m.regs m
     (h1 : res = .ok (next, s1)) (e : Eff S s s1 R V)
     (hr : DecodesList (S.view s1) R md.regs) (hv : DecodesList (S.view s1) V md.vals) (hf : md.frames = m.frames)
     (hn : next.getD (S.cursor s + 1) = n) : HandlerSim S P s res (.ok (md, n)) :=
-  ⟨next, s1, h1, hn, e.keeps.cur, hf ▸ SimD.ofEff hd e hr hv⟩
+  ⟨next, s1, h1, hn, e.keeps.cur, hf ▸ SimD.ofEff hd e hr hv, e.keeps.dec⟩
 
 theorem Sim.tail {s s1 : σ} {R V : List Nat} (e : Eff S s s1 R V) {ps : List Nat} {pvs : List (Val F)}
     (h : DecodesList (S.view s) ps pvs) : DecodesList (S.view s1) ps pvs := decodesList_keeps e.keeps h
@@ -28,7 +28,7 @@ theorem stepSim_invalid (L : StoreLaws S) (fuel : Nat) (H : OtherHandlers σ) {s
     (hsim : Sim S P s m) {operand : Option Nat} (hfetch : P.instrs[m.pc]? = some (.invalid, operand)) :
     StepSim fo host S P fuel H s m := by
   refine stepSim_of fo L fuel H hsim hfetch (r := .ok (m, m.pc + 1)) (by unfold Abs.step; rw [hfetch]; rfl) ?_
-  exact ⟨none, s, rfl, by simp [hsim.1], rfl, hsim.2⟩
+  exact ⟨none, s, rfl, by simp [hsim.1], rfl, hsim.2, fun _ _ h => h⟩
 
 /-- `Put k`: the constant's own address -/
 theorem stepSim_put (L : StoreLaws S) (fuel : Nat) (H : OtherHandlers σ) {s : σ} {m : MState F}
